@@ -315,7 +315,15 @@ class FsGetItem(Contract):
         if not (isinstance(result, VObj) and result.kind == "Item"):
             return [("returns-an-item", tm.FALSE)]
         rec_id = st.get(result, "id")
-        return [("item-carries-the-key-as-its-id", tm.eq(rec_id.t, a["item"].t) if isinstance(rec_id, VT) else tm.FALSE)]
+        out = [("item-carries-the-key-as-its-id", tm.eq(rec_id.t, a["item"].t) if isinstance(rec_id, VT) else tm.FALSE)]
+        ent = st.get(result, "entity")
+        rec = st.get(ent, "record") if isinstance(ent, VObj) else None
+        rid = st.get(rec, "id") if isinstance(rec, VObj) else None
+        if ent is not None:
+            # "... holds a circular record with that id": the record the entity wraps, not only the item's own field
+            out.append(("record-of-the-item-carries-the-key-as-its-id", tm.eq(rid.t, a["item"].t) if isinstance(rid, VT) else tm.FALSE))
+            out.append(("record-of-the-item-is-circular", tm.B(isinstance(rec, VObj) and rec.kind == "CircularRecord")))
+        return out
 
     def result(self, ex, st, a):
         st = st.fork()
